@@ -1,7 +1,9 @@
+mod c01;
 mod c02;
 mod c03;
 mod c06;
 mod c15;
+mod debug;
 mod e1;
 mod lib_spec;
 mod refgraph;
@@ -15,10 +17,12 @@ fn main() {
     mc_core::quiet_panics();
     let rest = &args[1..];
     match prop.as_str() {
+        "C01" => c01::run(rest),
         "C02" => c02::run(rest),
         "C03" => c03::run(rest),
         "C06" => c06::run(rest),
         "C15" => c15::run(rest),
+        "debug" => debug::run(rest),
         _ => mc_core::machinery_error(&format!("mc-graph does not serve {prop}")),
     }
 }
